@@ -40,7 +40,7 @@ type Repo struct {
 	Refs    []Ref
 	Remotes map[string]string
 	FS      *vfs.FS
-	clocks  map[string]lamport.Clock
+	gogit   *repository.GoGitRepo // real clock code (clocks map + local storage only)
 	local   *repository.MemConfig
 	global  *repository.MemConfig
 	Indexes map[string]*Index
@@ -64,7 +64,6 @@ func New() *Repo {
 		Commits:    map[repository.Hash]*CommitRec{},
 		Remotes:    map[string]string{},
 		FS:         vfs.New(),
-		clocks:     map[string]lamport.Clock{},
 		local:      repository.NewMemConfig(),
 		global:     repository.NewMemConfig(),
 		Indexes:    map[string]*Index{},
@@ -89,8 +88,9 @@ func (r *Repo) newHash(kind byte) repository.Hash {
 // Restart models a process restart: in-memory clock objects are dropped (they are
 // reloaded from the clock files on demand), everything stored stays.
 func (r *Repo) Restart() {
-	r.clocks = map[string]lamport.Clock{}
+	r.gogit = nil
 	r.CrashAfter = -1
+	r.FS.CrashAfter = -1
 }
 
 // ---- RepoConfig / Keyring / Common / Storage / Index ----
@@ -375,79 +375,58 @@ func (r *Repo) ListCommits(ref string) ([]repository.Hash, error) {
 	return repository.VHListCommits(r, ref)
 }
 
-// ---- RepoClock (as GoGitRepo: persisted clocks under clocks/) ----
+// ---- RepoClock: the real GoGitRepo clock code over the model filesystem ----
 
-func clockPath(name string) string { return "clocks/" + name }
+func (r *Repo) clockRepo() *repository.GoGitRepo {
+	if r.gogit == nil {
+		r.gogit = repository.VHNewClockRepo(r.FS)
+	}
+	return r.gogit
+}
 
 func (r *Repo) AllClocks() (map[string]lamport.Clock, error) {
+	// GoGitRepo.AllClocks lists the directory with os.ReadDir; modelled on M-FS
 	out := map[string]lamport.Clock{}
-	for k, v := range r.clocks {
-		out[k] = v
+	infos, _ := r.FS.ReadDir("clocks")
+	for _, fi := range infos {
+		c, err := r.clockRepo().VHGetClock(fi.Name())
+		if err != nil {
+			return nil, err
+		}
+		out[fi.Name()] = c
 	}
 	return out, nil
 }
 
-func (r *Repo) getClock(name string) (lamport.Clock, error) {
-	if c, ok := r.clocks[name]; ok {
-		return c, nil
-	}
-	c, err := lamport.LoadPersistedClock(r.FS, clockPath(name))
-	if err == nil {
-		r.clocks[name] = c
-		return c, nil
-	}
-	if err == lamport.ErrClockNotExist {
-		return nil, repository.ErrClockNotExist
-	}
-	return nil, err
+// GetClock is GoGitRepo.getClock: load, do not create.
+func (r *Repo) GetClock(name string) (lamport.Clock, error) {
+	return r.clockRepo().VHGetClock(name)
 }
 
 func (r *Repo) GetOrCreateClock(name string) (lamport.Clock, error) {
-	c, err := r.getClock(name)
-	if err == nil {
-		return c, nil
-	}
-	if err != repository.ErrClockNotExist {
-		return nil, err
-	}
-	nc, err := lamport.NewPersistedClock(r.FS, clockPath(name))
-	if err != nil {
-		return nil, err
-	}
-	r.clocks[name] = nc
-	return nc, nil
+	return r.clockRepo().GetOrCreateClock(name)
 }
 
 func (r *Repo) Increment(name string) (lamport.Time, error) {
 	r.mutate("Increment " + name)
-	c, err := r.GetOrCreateClock(name)
-	if err != nil {
-		return 0, err
-	}
-	return c.Increment()
+	return r.clockRepo().Increment(name)
 }
 
 func (r *Repo) Witness(name string, time lamport.Time) error {
 	r.mutate("Witness " + name)
-	c, err := r.GetOrCreateClock(name)
-	if err != nil {
-		return err
-	}
-	return c.Witness(time)
+	return r.clockRepo().Witness(name, time)
 }
 
 // SetClock forces a clock value (harness construction of an arbitrary clock state).
 func (r *Repo) SetClock(name string, t lamport.Time) {
-	c, err := r.GetOrCreateClock(name)
-	if err != nil {
+	if err := r.clockRepo().Witness(name, t); err != nil {
 		panic(err)
 	}
-	_ = c.Witness(t)
 }
 
-// ClockTime returns the current value of a clock (0 if absent).
+// ClockTime returns the current value of a clock (0 if absent or unreadable).
 func (r *Repo) ClockTime(name string) lamport.Time {
-	c, err := r.getClock(name)
+	c, err := r.clockRepo().VHGetClock(name)
 	if err != nil {
 		return 0
 	}
